@@ -758,6 +758,36 @@ fn a22tcp__new_decoder_with_eih<const N: usize>(
     }
 }
 
+//@@ octo-squirrel/src/codec/shadowsocks/aead_2022/tcp.rs:65-77  fn with_eih  sha=46b0d27b4b9dc461
+fn a22tcp__with_eih<const N: usize>(kind: &CipherKind, key: &[u8], identity_keys: &[[u8; N]], salt: &[u8], dst: &mut BytesMut) {
+    let mut sub_key: Option<[u8; blake3::OUT_LEN]> = None;
+    for ipsk in identity_keys.iter() {
+        if let Some(sub_key) = sub_key {
+            a22tcp__make_eih(kind, &sub_key, ipsk, dst)
+        }
+        let key_material = verif_concat2(ipsk, salt);
+        sub_key = Some(blake3::derive_key("shadowsocks 2022 identity subkey", &key_material))
+    }
+    if let Some(sub_key) = sub_key {
+        a22tcp__make_eih(kind, &sub_key, key, dst)
+    }
+}
+
+//@@ octo-squirrel/src/codec/shadowsocks/aead_2022/tcp.rs:79-91  fn make_eih  sha=ecd643937aab1dec
+fn a22tcp__make_eih(kind: &CipherKind, sub_key: &[u8], ipsk: &[u8], out: &mut BytesMut) {
+    let ipsk_hash = blake3::hash(ipsk);
+    let ipsk_plain_text = &ipsk_hash.as_bytes()[..16];
+    let mut ipsk_encrypt_text = [0; 16];
+    ipsk_encrypt_text.copy_from_slice(ipsk_plain_text);
+    match kind {
+        CipherKind::Aead2022Blake3Aes128Gcm => Aes128EcbNoPadding::encrypt(sub_key, &mut ipsk_encrypt_text, 16),
+        CipherKind::Aead2022Blake3Aes256Gcm => Aes256EcbNoPadding::encrypt(sub_key, &mut ipsk_encrypt_text, 16),
+        _ => verif_panic(),
+    }
+    /*R2*/
+    out.extend_from_slice(&ipsk_encrypt_text);
+}
+
 //@@ octo-squirrel/src/codec/shadowsocks/tcp.rs:29-35  struct Context  sha=f38c8bead60f1e38
 pub struct Context<const N: usize> {
     key: [u8; N],
